@@ -308,10 +308,17 @@ class _H(object):
           return m.error(c.m, False, et, code)
         return sb.error(xid, et, code, b""), act0
       rt, rx, rb = c.requests[msg[1] % len(c.requests)]
-      if rt == sb.OFPT_BARRIER_REQUEST and c.barrier_answered:
+      if rt == sb.OFPT_BARRIER_REQUEST and rx == bx and c.barrier_answered:
         # the switch answers the barrier once (the quantifier's multiset): answer another request instead
         rt, rx, rb = c.requests[msg[1] % (len(c.requests) - 1)]
-      is_barrier = rt == sb.OFPT_BARRIER_REQUEST
+        if rt == sb.OFPT_BARRIER_REQUEST and rx == bx:
+          rt, rx, rb = c.requests[0]
+      # "the" barrier is the outstanding one: after a second features reply during the handshake the
+      # controller has sent a second barrier request, and an answer to the first (superseded) one says
+      # nothing about the messages sent after it -- the statement does not make it complete the handshake
+      is_barrier = rt == sb.OFPT_BARRIER_REQUEST and rx == bx
+      if rt == sb.OFPT_BARRIER_REQUEST and not is_barrier:
+        self.out.label("error-answering:superseded-barrier")
       if is_barrier:
         c.barrier_answered = True
       self.out.label("error-answering:%s/%s" % (_REQ_NAMES[rt], "BAD_REQUEST-BAD_TYPE" if (et, code) == _RERR_CODES[0] else "other-code"))
